@@ -241,6 +241,9 @@ pub(crate) enum Ev {
     LoopReturned,
     ShutdownResolved,
     GateTimeout { conn: usize },
+    /// a second registry, attached to the server BEFORE the main one, disagrees with the main one about this
+    /// connection's peer at a moment when the serving task itself looks (never pushed when they agree)
+    FirstRegistry { conn: usize, site: &'static str, main: bool, first: bool },
     // ---- rows of c15_ext.rs (registry traffic from outside the connection)
     /// harness: from here on every write of the server on this connection fails
     /// (its reads stay open and silent)
@@ -276,6 +279,7 @@ impl Ev {
             | Ev::WriteCut { conn }
             | Ev::WriterDead { conn }
             | Ev::Ext { conn, .. }
+            | Ev::FirstRegistry { conn, .. }
             | Ev::GateTimeout { conn } => *conn,
             Ev::Error { .. } | Ev::LoopReturned | Ev::ShutdownResolved => NOCONN,
         }
@@ -318,6 +322,9 @@ pub(crate) struct World {
     log: Mutex<Vec<Ev>>,
     cv: Condvar,
     pub reg: PeerRegistry,
+    /// attached to the server before `reg` (a server may carry several registries): must hold the same peers
+    pub reg_first: PeerRegistry,
+    first_checks: std::sync::atomic::AtomicU64,
     bind: Mutex<Bind>,
     pub plans: Vec<Plan>,
     /// rows of c15_ext.rs: the first connect hook keeps a clone of the connection's
@@ -332,6 +339,8 @@ impl World {
             log: Mutex::new(Vec::new()),
             cv: Condvar::new(),
             reg: PeerRegistry::new(),
+            reg_first: PeerRegistry::new(),
+            first_checks: std::sync::atomic::AtomicU64::new(0),
             bind: Mutex::new(Bind::default()),
             plans,
             keep_handles: false,
@@ -415,7 +424,23 @@ impl World {
         };
         (present, alias)
     }
+    /// Compare the two attached registries for this peer (only from the serving task's own hooks and inline
+    /// handlers, and after the connection has ended: the two insert / remove closures run back to back there).
+    pub(crate) fn check_first(&self, conn: usize, id: PeerId, site: &'static str) {
+        let main = self.reg.get(id).is_some();
+        let first = self.reg_first.get(id).is_some();
+        self.first_checks.fetch_add(1, Ordering::SeqCst);
+        if main != first {
+            self.push(Ev::FirstRegistry { conn, site, main, first });
+        }
+    }
+    pub(crate) fn first_checks(&self) -> u64 {
+        self.first_checks.load(Ordering::SeqCst)
+    }
     pub(crate) fn sample_after(&self, conn: usize) {
+        if let Some(id) = self.peer_of(conn) {
+            self.check_first(conn, id, "after-the-connection-ended");
+        }
         let (present, alias) = match self.peer_of(conn) {
             Some(id) => self.sample(conn, id),
             None => (false, self.plans.get(conn).is_some_and(|p| self.reg.get_by(p.alias.as_str()).is_some())),
@@ -434,6 +459,7 @@ pub(crate) fn build_server(w: &Arc<World>) -> WebSocketServer {
                 let id = ctx.peer().map(|p| p.peer_id()).unwrap_or(PeerId::DETACHED);
                 let conn = w.conn_of(id);
                 let (present, alias) = w.sample(conn, id);
+                w.check_first(conn, id, "inline-handler");
                 w.push(Ev::Probe { conn, n: v.get("n").and_then(|n| n.as_u64()).unwrap_or(0), present, alias, cancelled: ctx.is_cancelled() });
                 Ok(json!({"probe": true}))
             }
@@ -531,9 +557,11 @@ pub(crate) fn build_server(w: &Arc<World>) -> WebSocketServer {
             move |id| {
                 let conn = w.conn_of(id);
                 let (present, alias) = w.sample(conn, id);
+                w.check_first(conn, id, "first-disconnect-hook");
                 w.push(Ev::D1 { conn, present, alias });
             }
         })
+        .with_peer_registry(w.reg_first.clone())
         .with_peer_registry(w.reg.clone())
         .on_peer_connect({
             let w = w.clone();
@@ -541,6 +569,7 @@ pub(crate) fn build_server(w: &Arc<World>) -> WebSocketServer {
                 let id = peer.peer_id();
                 let conn = w.conn_of(id);
                 let (present, _) = w.sample(conn, id);
+                w.check_first(conn, id, "connect-hook-after-the-registries");
                 let a = peer.send_notify("/hello/1", NotifyBody::Json(b"1".to_vec())).is_ok();
                 let b = peer.send_notify("/hello/2", NotifyBody::Json(b"2".to_vec())).is_ok();
                 w.push(Ev::C2 { conn, present, notify_ok: a && b });
@@ -578,6 +607,7 @@ pub(crate) fn build_server(w: &Arc<World>) -> WebSocketServer {
             move |id| {
                 let conn = w.conn_of(id);
                 let (present, alias) = w.sample(conn, id);
+                w.check_first(conn, id, "last-disconnect-hook");
                 w.push(Ev::D2 { conn, present, alias });
             }
         })
@@ -634,6 +664,7 @@ pub(crate) struct Counters {
     pub notifies_on_wire: u64,
     pub registry_samples_connected: u64,
     pub registry_samples_after: u64,
+    pub first_registry_comparisons: u64,
     pub disconnect_pairs_checked: u64,
     pub handshake_failures: u64,
     pub offpanic_survived: u64,
@@ -730,6 +761,7 @@ impl Counters {
         self.notifies_on_wire += o.notifies_on_wire;
         self.registry_samples_connected += o.registry_samples_connected;
         self.registry_samples_after += o.registry_samples_after;
+        self.first_registry_comparisons += o.first_registry_comparisons;
         self.disconnect_pairs_checked += o.disconnect_pairs_checked;
         self.handshake_failures += o.handshake_failures;
         self.offpanic_survived += o.offpanic_survived;
@@ -795,6 +827,7 @@ pub(crate) struct Outcome {
 
 fn short(e: &Ev) -> &'static str {
     match e {
+        Ev::FirstRegistry { .. } => "REG-DISAGREE",
         Ev::C1 { .. } => "c1",
         Ev::C2 { .. } => "c2",
         Ev::C2Parked { .. } => "c2park",
@@ -833,6 +866,15 @@ pub(crate) fn evaluate(w: &World, facts: &[ConnFacts], shared_end: bool, out: &m
         out.counters.tcp_events += log.len() as u64;
     }
     let first_shared_end = log.iter().position(|e| matches!(e, Ev::Ending { .. }));
+    out.counters.first_registry_comparisons += w.first_checks();
+    for e in &log {
+        if let Ev::FirstRegistry { conn, site, main, first } = e {
+            out.bad.push(Bad {
+                key: format!("C15:registries-disagree:{site}"),
+                what: format!("two registries are attached to the server; at {site} the one attached last {} the peer of connection {conn} while the one attached first {}", if *main { "holds" } else { "does not hold" }, if *first { "holds it" } else { "does not" }),
+            });
+        }
+    }
     for (conn, f) in facts.iter().enumerate() {
         let evs: Vec<(usize, &Ev)> = log.iter().enumerate().filter(|(_, e)| e.conn() == conn).collect();
         let shape: Vec<&str> = evs.iter().map(|(_, e)| short(e)).collect();
@@ -1490,7 +1532,7 @@ pub fn run(tier: Tier) -> ! {
             "phases": PHASES.iter().map(name).collect::<Vec<_>>(),
             "entry_points": ["adopt_upgraded", "adopt_upgraded_partially_read", "serve_connection", "serve_connection_with_handshake", "serve_connection_with_cancel", "serve_connection_with_cancel_and_handshake", "serve_listener (TCP)", "serve_listener_with_graceful_drain (TCP)", "serve_listener_with_shutdown (TCP)", "serve (TCP, addr)", "serve_with_shutdown (TCP, addr)", "serve_with_graceful_drain (TCP, addr)", "WebSocketServer::accept / accept_with_limits / accept_with_handshake / accept_with_handshake_and_limits (TCP)", "SharedWebSocketServer::accept / accept_with_handshake (TCP)"],
             "partially_read_prefixes": mem::PREFIXES.iter().map(name).collect::<Vec<_>>(),
-            "hooks": "C1, D1, with_peer_registry, C2 (queues 2 notifies), H (alias from the handshake), D2",
+            "hooks": "C1, D1, with_peer_registry (a second registry first, then the main one), C2 (queues 2 notifies), H (alias from the handshake), D2",
             "registry_traffic_from_outside_the_connection": ext::alphabet_json(),
         },
         "bound": {"connections_per_scenario": tier.pick(json!([1, 2, 3, 4]), json!([1, 2, 3, 8, 32])), "tcp": tcp::bound(tier), "registry_traffic_from_outside_the_connection": ext::bound_json(tier)},
@@ -1509,6 +1551,7 @@ pub fn run(tier: Tier) -> ! {
             "both_connect_notifies_seen_on_wire": c.notifies_on_wire,
             "registry_samples_while_connected": c.registry_samples_connected,
             "registry_samples_after_end": c.registry_samples_after,
+            "comparisons_with_a_second_registry_attached_first": c.first_registry_comparisons,
             "disconnect_hook_pairs_checked": c.disconnect_pairs_checked,
             "failed_handshakes": c.handshake_failures,
             "offreader_panic_survived": c.offpanic_survived,
